@@ -474,6 +474,9 @@ def run_c07(ctx):
         if es and free:
             # a PAT-shaped section on another PID than 0 naming an elementary PID as a program map PID: that PID's output is unchanged
             vs.append({'t': 'foreignpat', 'pid': free[0], 'at': rnd_py.choice(es)})
+        if es:
+            # ... and a PAT on PID 0 whose program_number 0 entry (the network PID) names an elementary PID
+            vs.append({'t': 'foreignpat', 'pid': 0, 'k': 'nit', 'at': rnd_py.choice(es)})
         if n >= 4 and len(scs) % (40 if quick else 10) == 7:
             # very long gaps between two packets of every PID: more null packets than any 16-bit packet count holds, once and twice over
             for cnt in (70000, 140000):
